@@ -28,6 +28,7 @@ import (
 	"github.com/dgraph-io/badger/v4/fb"
 	"github.com/dgraph-io/badger/v4/options"
 	"github.com/dgraph-io/badger/v4/pb"
+	"github.com/dgraph-io/badger/v4/vhook"
 	"github.com/dgraph-io/badger/v4/y"
 	"github.com/dgraph-io/ristretto/v2"
 	"github.com/dgraph-io/ristretto/v2/z"
@@ -290,6 +291,13 @@ func OpenTable(mf *z.MmapFile, opts Options) (*Table, error) {
 		IsInmemory: false,
 		tableSize:  int(fileInfo.Size()),
 		CreatedAt:  fileInfo.ModTime(),
+	}
+	if vhook.On {
+		// Under simulation file mtimes (real clock) are incomparable with the
+		// simulated clock, so the table age is taken from the simulated clock.
+		if now, ok := vhook.Now(); ok {
+			t.CreatedAt = now
+		}
 	}
 	// Caller is given one reference.
 	t.ref.Store(1)
